@@ -233,6 +233,8 @@ static std::vector<Case> make_cases(uint64_t seed, int i) {
   Rng rng(sim_run_seed(seed, 3000 + i));
   LabCase lc = gen_labcase(rng, i % 3 == 0 ? 10 : 5, true, i % 4 == 0, true);
   // rules that read data during evaluation and depend on the entry point, in every case
+  // functions over the whole input (byte distribution) on inputs down to zero bytes: a mapped empty file has no data pointer
+  lc.spec.sources[0].second = "import \"math\"\n" + lc.spec.sources[0].second + "rule c13_dist { condition: defined math.mode() and math.count(0x7a) >= 0 }\n";
   lc.spec.sources[0].second += "rule c13_ep { condition: entrypoint >= 0 }\nrule c13_u8 { condition: uint8(0) == 0x48 or uint16(1) == 0x4145 }\nrule c13_fw { strings: $a = \"tailword\" fullword condition: $a }\n";
   // offsets are absolute, whatever block a match was found in: counted in a range, tested at a position, read back.
   // In a namespace of their own: a generated global rule whose string straddles the cut legitimately fails in a
